@@ -451,3 +451,23 @@ func (s *WBPolicySim) Snapshot() *WBSnapshot[int, int64] {
 	sn.Step = s.p.step
 	return sn
 }
+
+// PeekEntry looks a key up in its shard's map without locks or scheduling
+// points (the caller is the only running task): value, deadline, present.
+//
+//go:norace
+func PeekEntry[K comparable, V any](s *Store[K, V], key K) (v V, expire int64, ok bool) {
+	_, i := s.index(key)
+	e, ok := s.shards[i].hashmap[key]
+	if !ok {
+		return v, 0, false
+	}
+	return e.value, e.expire.SimPeek(), true
+}
+
+// ClockNowPeek is the store clock's precise time without a scheduling point.
+//
+//go:norace
+func ClockNowPeek[K comparable, V any](s *Store[K, V]) int64 {
+	return simrt.Now() - (s.timerwheel.clock.Start.UnixNano() - simEpoch)
+}
